@@ -163,6 +163,7 @@ def finish(pid, tier, seed, cfg, reports, drift, extra, t0):
     obligations, discharged, undecided, crashes, failed = 0, 0, [], [], []
     by_backend, solver_time = {}, 0.0
     functions, samples, assumed, notes = [], [], set(), set()
+    slowest = []
     vac = []
     for fid in cfg["functions"]:
         r = reports[fid]
@@ -191,6 +192,7 @@ def finish(pid, tier, seed, cfg, reports, drift, extra, t0):
             if r.get("helper_drift") and o["result"] == "failed":
                 continue
             obligations += 1
+            slowest.append((o.get("time_s") or 0, o["name"], o.get("backend")))
             if o["result"] == "discharged":
                 discharged += 1
                 by_backend[o["backend"]] = by_backend.get(o["backend"], 0) + 1
@@ -284,6 +286,8 @@ def finish(pid, tier, seed, cfg, reports, drift, extra, t0):
             "bounded_standins": [b for e in extra for b in e.get("bounded_standins", [])],
             "extra_checks": [{k: v for k, v in e.items() if k not in ("failed", "samples")} for e in extra],
             "samples": samples or [{"note": "no discharged postcondition sample"}],
+            # the obligations that took the solvers longest on this run (a per-obligation budget that is approached is a verdict that may flip under load)
+            "slowest_obligations": [{"obligation": n_, "time_s": t_, "backend": b_} for t_, n_, b_ in sorted(slowest, reverse=True)[:5]],
         },
         "assumptions": sorted(notes) + cfg.get("assumptions", []),
         "wall_s": round(wall, 2),
